@@ -1,6 +1,7 @@
 package main
 
 import (
+	"bytes"
 	"encoding/json"
 
 	"verif/internal/check"
@@ -234,6 +235,16 @@ func shrinkBytes(b []byte) [][]byte {
 	var out [][]byte
 	if len(b) > 200 {
 		out = append(out, append([]byte{}, b[:8]...))
+	}
+	// drop one line at a time (the interesting part of a value is usually one line)
+	lines := bytes.Split(b, []byte("\n"))
+	if len(lines) > 1 && len(lines) <= 12 {
+		for i := range lines {
+			var rest [][]byte
+			rest = append(rest, lines[:i]...)
+			rest = append(rest, lines[i+1:]...)
+			out = append(out, bytes.Join(rest, []byte("\n")))
+		}
 	}
 	out = append(out, append([]byte{}, b[:len(b)/2]...), append([]byte{}, b[len(b)/2:]...))
 	return out
